@@ -1,0 +1,9 @@
+//go:build verif
+
+package curves
+
+// Contracts for package curves, read by /verif/govc (comment-only file, compiled only with -tags verif).
+
+//@ iface (c SpeedCurve).Evaluate() (value int, err error)
+//@   ensures[C06.range C07] err == nil ==> 0 <= value && value <= 255
+//@   modifies each(*LinearSpeedCurve).Value, each(*FunctionSpeedCurve).Value, each(*PidSpeedCurve).Value, each(*util.PidLoop).integral, each(*util.PidLoop).error, each(*util.PidLoop).lastTime, procWorld
